@@ -16,7 +16,7 @@ from __future__ import annotations
 from datetime import timedelta
 from typing import Any
 
-from detsim import env, gen, rng
+from detsim import env, gen, minimize, rng
 from detsim.observe import exc_token, observe_chart, observe_track, scrub, us
 from detsim.runner import Discard
 from detsim.sched import HarnessError, Scheduler
@@ -535,13 +535,7 @@ def shrink(plan: dict[str, Any]):
                 cand = ops[:i] + ops[i + 1:]
                 yield {**plan, "clients": clients[:ci] + [cand] + clients[ci + 1:]}
     # simpler schedule
-    sch = plan["schedule"]
-    if sch.get("mode") != "sequential":
-        yield {**plan, "schedule": {"mode": "sequential", "seed": 0, "p_boundary": 0.0}}
-    if sch.get("mode") == "explicit":
-        sw = sch["switches"]
-        for i in range(len(sw)):
-            yield {**plan, "schedule": {**sch, "switches": sw[:i] + sw[i + 1:], "where": []}}
+    yield from minimize.shrink_schedule(plan)
     # smaller text: drop body lines
     lines = plan["text"].split("\n")
     for i, ln in enumerate(lines):
